@@ -49,7 +49,8 @@ inductive Kind where
 
 This is a hand-written literal list.  It is meant to have one entry for every name the
 runner (`/verif/harness/src/ops_rand.rs`, function `one`) offers — 60 names at the time of
-writing, the last nine only in nightly builds — but nothing in Lean ties it to the Rust
+writing, the last nine only in nightly builds — plus one entry (`heapbytes_gen_locked0`, the
+last) that the runner does NOT offer, see below; but nothing in Lean ties it to the Rust
 source: agreement of the two lists is checked by the differential run (an entry-point name
 missing here makes the driver answer `n/a`), not by a theorem.
 
@@ -67,7 +68,14 @@ The nightly (protected-memory) generators, per `/repo/src`:
 * `sign_locked_keypair_gen`, `sign_lockedro_keypair_gen`  `crypto_sign_keypair_inplace` (32-byte
   seed drawn; sk = seed ‖ A); the runner reports the WHOLE 64-byte secret key, then the
   public key: seed ‖ A ‖ A;
-* `locked_secretbox_key_gen`  `Locked<Key>::gen` for the 32-byte secretbox key. -/
+* `locked_secretbox_key_gen`  `Locked<Key>::gen` for the 32-byte secretbox key;
+* `heapbytes_gen_locked0`  the blanket `NewLocked::gen_locked` / `gen_readonly_locked` AS WRITTEN, on
+  the resizable `HeapBytes` (/repo/src/protected.rs, `impl NewLocked<A> for A`):
+  `Self::new_bytes().mlock()?` gives an EMPTY region and `copy_randombytes(res.as_mut_slice())`
+  is then called on the empty slice — one request of 0 bytes, result = the empty region, on every
+  call.  (`heapbytes_gen_locked33` above is the harness sizing the buffer by hand; it is not what
+  `HeapBytes::gen_locked()` does.)  The runner does not offer this name; the entry is there so
+  that the table does not silently omit the one generator that draws nothing. -/
 def table : List (String × Kind) := [
   ("randombytes_buf", .raw 32), ("copy_randombytes", .raw 24),
   ("copy_randombytes17", .raw 17), ("copy_randombytes37", .raw 37), ("randombytes_buf21", .raw 21),
@@ -92,13 +100,28 @@ def table : List (String × Kind) := [
   ("lockedro_gen32", .raw 32), ("locked_trait_gen32", .raw 32), ("heapbytes_gen_locked33", .raw 33),
   ("locked_kdf_gen", .two 32 8), ("lockedro_keypair_gen", .keypair),
   ("sign_locked_keypair_gen", .signKeypairFull), ("sign_lockedro_keypair_gen", .signKeypairFull),
-  ("locked_secretbox_key_gen", .raw 32)]
+  ("locked_secretbox_key_gen", .raw 32),
+  ("heapbytes_gen_locked0", .raw 0)]
 
 structure Derivers where
   x25519Base : Bytes → Bytes
   edPublic : Bytes → Bytes
   b64 : Bytes → Bytes
 
+/-- the data flow of one call of an entry point of kind `k` on the entropy stream `src`.
+
+THREE DIFFERENCES from the Rust entry points (none is visible in the differential run, which only
+issues calls that succeed, on a stream long enough):
+* `run` draws UNCONDITIONALLY, the Rust checks first where it can fail: `crypto_box_seal` returns
+  `Err` BEFORE `crypto_box_keypair()` when the ciphertext buffer is shorter than
+  `message.len() + CRYPTO_BOX_SEALBYTES` (no byte drawn);
+* `crypto_pwhash_str` runs its two `validate!` guards on `opslimit` / `memlimit` before
+  `copy_randombytes(&mut salt)` (a rejected cost draws nothing); `run … .ephemeral` /
+  `run … .saltText` model the succeeding call only;
+* the verification hook `rng::verif_hooks::fill` reads the installed bytes CYCLICALLY
+  (`bytes[pos % len]`), so a request is always served in full, whereas `List.take` TRUNCATES at
+  the end of `src`: the two agree exactly when `k.consumed ≤ src.length` — the hypothesis the
+  freshness theorems carry. -/
 def run (D : Derivers) (k : Kind) (src : Bytes) : Res :=
   match k with
   | .raw n => raw n src
